@@ -19,5 +19,6 @@ Definition tree_reason_code (r : reason) : Z :=
   end.
 
 Definition src_tree : srcp :=
-  {| loop_bound := 10; min_budget := 3; reset_guarded := true; direct_clears_again := true; direct_cancels_retry := true;
-     put_resets_cursor := true; retry_checks_direct := true; reason_code := tree_reason_code |}.
+  {| loop_bound := 10; min_budget := 3; reset_guarded := true; direct_clears_again := true; direct_cancels_retry := true; direct_resets_upstream := true;
+     put_resets_cursor := true; retry_checks_direct := true; retry_refinalizes := false;
+     timers_reset_stream := true; reason_code := tree_reason_code |}.
